@@ -17,7 +17,8 @@ AEADS = [("chachapoly", 32, 8, 16), ("chachapoly_ietf", 32, 12, 16), ("xchachapo
 
 def configs(tier):
     if tier == "quick":
-        return [("native", "", "plain"), ("native", "avx512f,avx2", "plain"), ("native", vcore.ALL_OFF, "plain")]
+        return [("native", "", "plain"), ("native", "avx512f,avx2", "plain"), ("native", vcore.ALL_OFF, "plain"),
+                ("native", "", "plain", {"HX_ALIGN": "5"})]     # every buffer 5 bytes past a malloc boundary (misaligned for 2/4/8/16/32)
     return [(v, m, "plain") for v in vcore.VARIANTS for m in vcore.MASK_CHAIN]
 
 
